@@ -4,6 +4,8 @@
 package verifh
 
 import (
+	"bufio"
+	"crypto/sha256"
 	"encoding/hex"
 	"encoding/json"
 	"fmt"
@@ -375,4 +377,81 @@ func Catch(f func()) (panicked bool, val interface{}) {
 	}()
 	f()
 	return
+}
+
+// ---- cross-configuration differential runs (C06) ----
+
+// RunDiff drives a differential property whose oracle is "the same case gives
+// the same output bytes in every build/CPU configuration".  Each process
+// (one per configuration and shard, all with the same rapid seed) appends
+// "<key> <sha256(output)>" lines to $VERIF_DIFF_DIR/<test>.<config>.<shard>.txt;
+// the driver compares the files across configurations.  exec must be a pure
+// function of the case; a panic inside exec is part of the observable
+// behaviour and is recorded as the output "PANIC".
+func RunDiff[C any](t *testing.T, gen func(*rapid.T) C, exec func(C) (out []byte, classes []string, nontrivial bool)) {
+	test := t.Name()
+	dir := os.Getenv("VERIF_DIFF_DIR")
+	if dir == "" {
+		t.Skip("VERIF_DIFF_DIR not set")
+	}
+	name := fmt.Sprintf("%s.%s.%s.txt", strings.ReplaceAll(test, "/", "_"), os.Getenv("VERIF_CONFIG"), os.Getenv("VERIF_SHARD"))
+	f, err := os.Create(filepath.Join(dir, name))
+	if err != nil {
+		t.Fatalf("VERIF-HARNESS-ERROR %v", err)
+	}
+	defer f.Close()
+	w := bufio.NewWriterSize(f, 1<<16)
+	defer w.Flush()
+	safe := func(c C) (out []byte, cls []string, nt bool) {
+		defer func() {
+			if r := recover(); r != nil {
+				out, nt = []byte("PANIC"), true
+				cls = append(cls, "panicked")
+			}
+		}()
+		return exec(c)
+	}
+	if rp := os.Getenv("VERIF_REPLAY"); rp != "" {
+		b, err := os.ReadFile(rp)
+		if err != nil {
+			t.Fatalf("VERIF-HARNESS-ERROR cannot read replay: %v", err)
+		}
+		var rf replayFile
+		if err := json.Unmarshal(b, &rf); err != nil {
+			t.Fatalf("VERIF-HARNESS-ERROR bad replay file: %v", err)
+		}
+		if rf.Test != test {
+			t.Skipf("replay file is for %s", rf.Test)
+		}
+		var c C
+		if err := json.Unmarshal(rf.Case, &c); err != nil {
+			t.Fatalf("VERIF-HARNESS-ERROR bad replay case: %v", err)
+		}
+		out, _, _ := safe(c)
+		fmt.Fprintf(w, "replay %x %x\n", sha256.Sum256(out), out)
+		fmt.Printf("VERIF-REPLAYED test=%s\n", test)
+		return
+	}
+	want := map[string]bool{}
+	for _, k := range strings.Split(os.Getenv("VERIF_DIFF_WANT"), ",") {
+		if k != "" {
+			want[k] = true
+		}
+	}
+	t.Cleanup(func() { flush(test) })
+	rapid.Check(t, func(rt *rapid.T) {
+		c := gen(rt)
+		js, err := json.Marshal(c)
+		if err != nil {
+			rt.Fatalf("VERIF-HARNESS-ERROR unserialisable case: %v", err)
+		}
+		kh := sha256.Sum256(js)
+		key := hex.EncodeToString(kh[:10])
+		out, cls, nt := safe(c)
+		fmt.Fprintf(w, "%s %x\n", key, sha256.Sum256(out))
+		if want[key] {
+			dumpCase(test, c, &Violation{Sig: "diff:backend-mismatch", Detail: "output of this case differs between build/CPU configurations; key " + key})
+		}
+		record(test, c, Result{Classes: cls, NonTrivial: nt})
+	})
 }
